@@ -52,3 +52,91 @@ VARIANTS = [
       "                        errors += (-difference + separation_min)",
       "silent"),
 ]
+
+VARIANTS += [
+    V("home-streak-ended-by-away-vs-away-min", E,
+      "                    if is_in_home_streak:\n"
+      "                        if home_streak_len < home_streak_min:",
+      "                    if is_in_home_streak:\n"
+      "                        if home_streak_len < away_streak_min:",
+      "fire", "D7.4", "seed C07-home-streak-vs-away-min"),
+    V("bye-does-not-charge-short-home-streak", E,
+      "                    is_in_home_streak = False\n"
+      "                    if home_streak_len < home_streak_min:\n"
+      "                        errors += (home_streak_min - home_streak_len)"
+      "\n",
+      "                    is_in_home_streak = False\n", "fire", "D7.4"),
+    V("home-streak-length-not-advanced", E,
+      "                    home_streak_len += 1  # ...it continues\n",
+      "                    pass\n", "fire", "D7.4"),
+    V("last-meeting-not-recorded", E, "            temp_1[idx] = day\n",
+      "            pass\n", "fire", "D7.4"),
+    V("scans-row-instead-of-column", E, "        col = y[:, team_1]",
+      "        col = y[team_1, :]", "fire", "D7.4"),
+    V("separation-off-by-one", E,
+      "                    difference = day - last_time - 1",
+      "                    difference = day - last_time", "fire", "D7.4"),
+    V("pairing-count-sign", E,
+      "            errors += abs(ij + ji - games_per_combo)",
+      "            errors += abs(ij + ji + games_per_combo)", "fire",
+      "D7.4"),
+    V("away-streak-not-closed-by-home-game", E,
+      "                        away_streak_len = -1\n"
+      "                        is_in_away_streak = False\n",
+      "                        away_streak_len = -1\n", "fire", "D7.4"),
+    V("home-games-table-transposed", E,
+      "                temp_2[team_1, team_2] += 1",
+      "                temp_2[team_2, team_1] += 1", "fire", "D7.4"),
+    V("silent-short-streak-le", E,
+      "                    if away_streak_len < away_streak_min:\n"
+      "                        errors += (away_streak_min - away_streak_len)"
+      "\n                    away_streak_len = -1\n                elif",
+      "                    if away_streak_len <= away_streak_min:\n"
+      "                        errors += (away_streak_min - away_streak_len)"
+      "\n                    away_streak_len = -1\n                elif",
+      "silent", "", "adds 0 at equality"),
+    V("silent-balance-threshold", E, "            if diff > 1:",
+      "            if diff >= 1:", "silent", "", "adds diff - 1 = 0"),
+    V("silent-entry-sign-test", E,
+      "            if team_2_id > 0:  # our team plays a home game",
+      "            if team_2_id >= 0:  # our team plays a home game",
+      "silent", "", "0 was handled by the bye branch"),
+    V("silent-streak-length-initial-value", E,
+      "        home_streak_len: int = -1", "        home_streak_len: int = 0",
+      "silent", "", "the length is only read while the flag is set"),
+    V("silent-counter-init-moved", E, "    errors: int = 0  # the error "
+      "counter\n    temp_1.fill(-1)",
+      "    temp_1.fill(-1)\n    errors: int = 0", "silent", ""),
+    V("counter-starts-at-one", E, "    errors: int = 0  # the error counter",
+      "    errors: int = 1  # the error counter", "fire", "D7.1"),
+]
+
+VARIANTS += [
+    V("season-end-does-not-close-streak", E,
+      "        # the end of the season also ends the streak the team is in\n"
+      "        if is_in_home_streak:\n"
+      "            if home_streak_len < home_streak_min:\n"
+      "                errors += (home_streak_min - home_streak_len)\n"
+      "        elif is_in_away_streak:\n"
+      "            if away_streak_len < away_streak_min:\n"
+      "                errors += (away_streak_min - away_streak_len)\n",
+      "", "fire", "D7.5", "the defect repaired by e9f0724, re-introduced"),
+    V("season-end-closes-home-streak-only", E,
+      "        elif is_in_away_streak:\n"
+      "            if away_streak_len < away_streak_min:\n"
+      "                errors += (away_streak_min - away_streak_len)\n\n"
+      "    # sum up", "\n    # sum up", "fire", "D7.5"),
+    V("silent-season-end-max-form", E,
+      "        if is_in_home_streak:\n"
+      "            if home_streak_len < home_streak_min:\n"
+      "                errors += (home_streak_min - home_streak_len)\n"
+      "        elif is_in_away_streak:\n"
+      "            if away_streak_len < away_streak_min:\n"
+      "                errors += (away_streak_min - away_streak_len)\n\n"
+      "    # sum up",
+      "        if is_in_home_streak and (home_streak_len < home_streak_min):"
+      "\n            errors += home_streak_min - home_streak_len\n"
+      "        if is_in_away_streak and (away_streak_len <= away_streak_min)"
+      ":\n            errors += away_streak_min - away_streak_len\n\n"
+      "    # sum up", "silent", "", "an equivalent formulation"),
+]
